@@ -128,26 +128,6 @@ theorem token_never_visible (cfg : Cfg) (w : World) (req : Req) :
 
 /-! ## An accepted exchange continuation is exactly one turn -/
 
-theorem getFirst_append_of_no_key (k : Bytes) : ∀ (a b : Meta), (∀ kv ∈ a, kv.1 ≠ k) →
-    getFirst k (a ++ b) = getFirst k b
-  | [], _, _ => rfl
-  | x :: r, b, h => by
-    have hx := h x (by simp)
-    simp only [List.cons_append, getFirst, hx, if_false]
-    exact getFirst_append_of_no_key k r b (fun kv hkv => h kv (by simp [hkv]))
-
-/-- the cursor wins: whatever metadata the emit carried (a `MetaStreamState` entry included), a
-`GetValue(MetaStreamState)` on the merged metadata yields the fresh cursor -/
-theorem getFirst_mergeToken (tok : Val) (md : List (Bytes × Bytes)) :
-    getFirst keyState (mergeToken tok md) = some tok := by
-  unfold mergeToken
-  rw [getFirst_append_of_no_key]
-  · simp [getFirst]
-  · intro kv hkv
-    simp only [litMeta, List.mem_map, List.mem_filter] at hkv
-    obtain ⟨a, ⟨_, ha⟩, rfl⟩ := hkv
-    simpa using ha
-
 theorem mergeToken_tokens (tok : Val) (md : List (Bytes × Bytes)) :
     ∀ kv ∈ mergeToken tok md, (∃ b, kv.2 = Val.lit b) ∨ kv = (keyState, tok) := by
   intro kv hkv
